@@ -62,6 +62,43 @@ theorem C03_content_items (c : Content) (rc : ResourceContents) :
     wfContent (encodeContent c) = true ∧ wfResourceContents (encodeResourceContents rc) = true :=
   ⟨wf_content c, wf_resourceContents rc⟩
 
+/-- List filters (`WithToolListFilter`, `WithPromptListFilter`, `WithResourceListFilter`, their legacy-SSE counterparts) are
+    ARBITRARY functions here — keyed on whatever the request context carries, returning nil or empty slices, hiding
+    everything or something: the three list results are well-formed for every one of them (tools: provided the descriptors
+    that come back carry an object schema, `Conforming.listed`), the list member is an ARRAY (never `null`), and all three
+    servers emit well-formed messages (`C03_wf_*` quantify over these registries too). -/
+theorem C03_filtered_lists (reg : Registry) (hreg : reg.Conforming) :
+    (∃ xs, handleListTools reg = .result (.obj [(t!"tools", .arr xs)]) ∧ wfResult t!"tools/list" (.obj [(t!"tools", .arr xs)]) = true) ∧
+    (∃ xs, handleListPrompts reg = .result (.obj [(t!"prompts", .arr xs)]) ∧ wfResult t!"prompts/list" (.obj [(t!"prompts", .arr xs)]) = true) ∧
+    (∃ xs, handleListResources reg = .result (.obj [(t!"resources", .arr xs)]) ∧
+      wfResult t!"resources/list" (.obj [(t!"resources", .arr xs)]) = true) :=
+  ⟨⟨_, rfl, wf_listTools reg hreg⟩, ⟨_, rfl, wf_listPrompts _⟩, ⟨_, rfl, wf_listResources _⟩⟩
+
+/-- `Conforming.listed` holds for every filter that selects among the registered descriptors (any sublist, in any order,
+    with repetitions): what such a filter returns already satisfies `Conforming.schema`. -/
+theorem C03_selecting_filters_conform (reg : Registry)
+    (hs : ∀ t ∈ reg.tools, ∃ s, t.desc.inputSchema = some (.obj s) ∧ lookup s t!"type" = some (.str t!"object"))
+    (hsel : ∀ d ∈ reg.toolFilter (reg.tools.map (·.desc)), d ∈ reg.tools.map (·.desc)) :
+    ∀ d ∈ reg.toolFilter (reg.tools.map (·.desc)), ∃ s, d.inputSchema = some (.obj s) ∧ lookup s t!"type" = some (.str t!"object") := by
+  intro d hd
+  obtain ⟨t, ht, rfl⟩ := List.mem_map.mp (hsel d hd)
+  exact hs t ht
+
+/-- A filter that hides everything — returning a nil slice or an empty one is the same `[]` here — on all three servers:
+    `"tools": []`, `"prompts": []`, `"resources": []`, well-formed, with a result. -/
+theorem C03_hide_all_filters_witness :
+    let reg : Registry := { demoReg with toolFilter := fun _ => [], promptFilter := fun _ => [], resourceFilter := fun _ => [] }
+    ([t!"tools/list", t!"prompts/list", t!"resources/list"].all fun m =>
+      let j := demoEnv (.int 1) m none
+      (serveStreamable (demoCfg .stateless) reg {} (postOf .none false j)).2.messages.all (wfMsg (some j)) &&
+      (serveStreamable (demoCfg .stateless) reg {} (postOf .none false j)).2.hasResult &&
+      (serveSSE reg (ssePostOf j)).messages.all (wfMsg (some j)) && (serveSSE reg (ssePostOf j)).hasResult &&
+      (serveStdio reg (.json j)).messages.all (wfMsg (some j)) && (serveStdio reg (.json j)).hasResult) = true ∧
+    (match handleListTools reg with | .result (.obj [(k, .arr [])]) => k == t!"tools" | _ => false) = true ∧
+    (match handleListPrompts reg with | .result (.obj [(k, .arr [])]) => k == t!"prompts" | _ => false) = true ∧
+    (match handleListResources reg with | .result (.obj [(k, .arr [])]) => k == t!"resources" | _ => false) = true := by
+  decide +kernel
+
 /-- D07 repaired: a handler that returns a nil slice is answered with an empty array (all three servers). -/
 theorem C03_nil_slices_are_arrays :
     let j := demoEnv (.int 1) t!"tools/call" (some (callParams t!"nilcontent"))
@@ -267,10 +304,13 @@ example :
 
 /-- the demo registry — nil-slice, embedded-resource and unencodable handlers included — satisfies `Conforming` -/
 example : Registry.Conforming demoReg := by
-  refine ⟨?_, ?_⟩
+  refine ⟨?_, ?_, ?_⟩
   · intro t ht
     simp [demoReg] at ht
     rcases ht with rfl | rfl | rfl | rfl | rfl <;> exact ⟨_, rfl, rfl⟩
+  · intro d hd
+    simp [demoReg] at hd
+    rcases hd with rfl | rfl | rfl | rfl | rfl <;> exact ⟨_, rfl, rfl⟩
   · intro p hp a r hr
     simp [demoReg] at hp; subst hp
     simp [demoPrompt] at hr; subst hr
